@@ -1955,6 +1955,12 @@ func (c *BytecodeCompiler) compileDo(body func(), catches []*ast.CatchNode, fina
 		c.patchJump(jumpOverBreakOrContinueEntryOffset, location)
 		c.patchJump(jumpOverReturnBreakOrContinueEntryOffset, location)
 
+		// a return, break or continue leaves the body without executing the code that closes upvalues,
+		// the locals of the finally block reuse the slots of the body
+		if lowestCapturedInBody != -1 {
+			c.emitCloseUpvalues(location.EndPos.Line, uint16(lowestCapturedInBody))
+		}
+
 		finally(false)
 
 		c.emit(location.EndPos.Line, bytecode.SWAP)
